@@ -12,7 +12,13 @@ oracle:         on the real library, independent of the model, for one document 
                 instance attributes) before and after every call - equal apart from the meta:generator children
                 of office:meta, which are untouched or normalised (exactly one, the library's string, found by
                 the query, wherever it sits); pairwise infoset comparison (expat) of repeated outputs of the
-                same kind (zips member-wise, timestamps ignored)
+                same kind (zips member-wise, timestamps ignored).
+                Failed calls are calls too: save()/write() to a stream of the caller whose write() raises at its n-th call, with a
+                picture file (registered by file name) missing at that moment, or to a path that cannot be created.  A call
+                that raised returns nothing; the document after it is judged like after any other call (instance attributes
+                that first appear during a failed call are output scratch state, not document content: counted, and left out
+                of the comparison from then on) and every later output is compared with the earlier ones of its kind.  The
+                model is driven through the same histories (Render.Call: failedEarly / failedLate = metaxml() had not / had run).
 """
 import io, os, zipfile, json, itertools, tempfile, shutil, atexit
 from common import enc_str
@@ -287,6 +293,77 @@ def call(doc, op):
     return getattr(doc, op)()
 
 
+class FaultyStream(object):
+    """a stream of the caller (write/flush only, not seekable): keeps what it is given, notes the names of the zip members
+    that were BEGUN (local file headers, read from the bytes handed over - not from the library), and raises OSError ONCE, at
+    its `nth` call of write().  Once the central directory has begun it does not raise any more: write() leaves closing the
+    archive to the finaliser of its ZipFile, where an exception cannot reach the caller."""
+    def __init__(self, nth=None):
+        self.nth, self.calls, self.raised, self.began, self.chunks, self.tail = nth, 0, False, [], [], False
+    def write(self, data):
+        data = bytes(data)
+        if data[:4] == b'PK\x03\x04' and len(data) >= 30:
+            n = int.from_bytes(data[26:28], 'little')
+            self.began.append(data[30:30 + n].decode('utf-8', 'replace'))
+        if data[:4] in (b'PK\x01\x02', b'PK\x05\x06', b'PK\x06\x06'):
+            self.tail = True
+        k = self.calls
+        self.calls += 1
+        if self.nth is not None and k == self.nth and not self.raised and not self.tail:
+            self.raised = True
+            raise OSError(28, 'No space left on device (injected at write() call %d)' % k)
+        self.chunks.append(data)
+        return len(data)
+    def flush(self):
+        pass
+    def getvalue(self):
+        return b''.join(self.chunks)
+
+
+def fault_kind(fault):
+    return fault.rstrip('0123456789')
+
+
+def call_faulty(doc, base, fault):
+    """save()/write() under an injected fault.  fault = 'w<n>': the stream's n-th write() raises;  'nofile<j>': the j-th picture
+    file (registered by file name, in the document or its objects) is away while the call runs;  'path': save() to a file in a
+    directory that does not exist.  Returns {'raised': exception class name or None, 'data': the package if the call got
+    through, 'began_meta': the top document's meta.xml member had been begun (for the model: metaxml() had run)}"""
+    import gc
+    kind = fault_kind(fault)
+    num = int(fault[len(kind):] or 0)
+    fn = doc.save if base == 'save' else doc.write
+    stream = FaultyStream(num if kind == 'w' else None)
+    moved = None
+    try:
+        if kind == 'nofile':
+            files = sorted(picture_files(doc).items())
+            if files:
+                moved = files[num % len(files)][1]
+                os.rename(moved, moved + u'.away')
+        if kind == 'path':
+            new_file(b'', u'.tmp')                       # makes sure the scratch directory exists
+            target = os.path.join(_SCRATCH['dir'], u'no-such-directory', u'out.odt')
+            fn(target)
+        else:
+            fn(stream)
+        gc.collect()
+        return {'raised': None, 'data': stream.getvalue() if kind != 'path' else open(target, 'rb').read(), 'began_meta': True}
+    except (OSError, IOError) as e:
+        return {'raised': e.__class__.__name__, 'data': None, 'began_meta': u'meta.xml' in stream.began}
+    finally:
+        if moved is not None:
+            os.rename(moved + u'.away', moved)
+
+
+def hide(s, scratch):
+    """the snapshot without the instance attribute NAMES in `scratch` (names that first appeared during a failed call)"""
+    if not scratch:
+        return s
+    m = s['misc']
+    return dict(s, misc=(m[0], m[1], tuple(k for k in m[2] if k not in scratch)))
+
+
 def zip_members(data):
     z = zipfile.ZipFile(io.BytesIO(data))
     out = []
@@ -457,6 +534,8 @@ def real_out_tokens(op, data, coder, filemap=None):
 
 
 def canon_model_out(toks):
+    if toks[0] == 'N':          # a call that raised: no output
+        return ['N']
     if toks[0] == 'X':
         c, pos = canon_tokens(toks, 1, True)
         return ['X'] + c
@@ -488,6 +567,7 @@ def run_sequence(chk, recipe, ops, T, tv, lines, pend):
     case = {'recipe': recipe, 'ops': ops}
     prev = snapshot(doc)
     prev_dump = ' '.join(first_dump)
+    scratch, letters, called = set(), [], []
     for i, op in enumerate(ops):
         if op == 'touch':
             # not a call of the library: the picture files on disk get new content
@@ -497,56 +577,85 @@ def run_sequence(chk, recipe, ops, T, tv, lines, pend):
             seen.pop('save', None); seen.pop('write', None)
             chk.count('op_touch')
             continue
-        data = call(doc, op)
+        base, bang, fault = op.partition('!')
+        failed, res = False, None
+        if bang:
+            res = call_faulty(doc, base, fault)
+            data, failed = res['data'], res['raised'] is not None
+            sigop = base + '!' + fault_kind(fault) if failed else base
+            chk.count('faulty_calls_that_raised' if failed else 'faulty_calls_that_got_through')
+            chk.count('fault_' + fault_kind(fault))
+        else:
+            data = call(doc, op); sigop = op
         now = snapshot(doc)
-        if op in ('save', 'write'):
+        if failed:
+            fresh = set(now['misc'][2]) - set(prev['misc'][2])
+            if fresh:
+                scratch.update(fresh); chk.count('failed_calls_that_left_scratch_attributes')
+        if base in ('save', 'write') and not failed:
             # rendering reads a picture given by file name each time: the package carries what the file holds now
             members = dict((n, pl) for n, ct, pl in zip_members(data))
             for name, path in sorted(picture_files(doc).items()):
                 chk.count('file_pictures_checked')
                 if members.get(name) != open(path, 'rb').read():
-                    chk.fail('stale-picture-bytes:' + op, dict(case, at=i),
-                             '%s(): member %s does not hold the current content of the file it was registered with' % (op, name))
+                    chk.fail('stale-picture-bytes:' + sigop, dict(case, at=i),
+                             '%s(): member %s does not hold the current content of the file it was registered with' % (sigop, name))
         # --- purity
-        verdict, why = judge_own(prev, now, tv)
+        verdict, why = judge_own(hide(prev, scratch), hide(now, scratch), tv)
         if verdict == 'changed':
-            chk.fail('document-changed:' + op, dict(case, at=i),
-                     '%s() changed the document beyond generator normalisation: %s' % (op, why))
+            chk.fail('document-changed:' + sigop, dict(case, at=i),
+                     '%s() %schanged the document beyond generator normalisation: %s' % (sigop, 'raised %s and ' % res['raised'] if failed else '', why))
         elif verdict == 'generator':
-            chk.fail('generator-not-normalised:' + op, dict(case, at=i), 'after %s(): %s' % (op, why))
+            chk.fail('generator-not-normalised:' + sigop, dict(case, at=i), 'after %s(): %s' % (sigop, why))
         else:
             chk.count('calls_that_normalised' if verdict == 'normalised' else 'calls_that_changed_nothing')
         if now['links']:
-            chk.fail('broken-links:' + op, dict(case, at=i), 'after %s(): %s' % (op, list(now['links'])[:4]))
+            chk.fail('broken-links:' + sigop, dict(case, at=i), 'after %s(): %s' % (sigop, list(now['links'])[:4]))
         prev = now
-        # --- repeatability
-        info = out_infoset(op, data)
-        kind = op
-        if kind in seen:
-            j, first = seen[kind]
-            chk.count('repeated_outputs_compared')
-            if info != first:
-                chk.fail('not-repeatable:' + op, dict(case, at=i, first=j),
-                         'call %d and call %d of %s() give different infosets' % (j, i, op))
-        else:
-            seen[kind] = (i, info)
-        # --- for the correspondence
         dump = ' '.join(dump_doc(doc, coder))
         states.append('=' if dump == prev_dump else 'D ' + dump)
         prev_dump = dump
-        outs_tok.append(' '.join(real_out_tokens(op, data, coder, picture_files(doc))))
+        called.append(op)
+        if failed:
+            # a call that raised has no output; what it must not do is show in any later output (compared below, when they come)
+            letters.append('G' if res['began_meta'] else 'F')
+            outs_tok.append('N')
+            continue
+        letters.append(LETTER[base])
+        # --- repeatability
+        info = out_infoset(base, data)
+        kind = base
+        if kind in seen:
+            j, first = seen[kind]
+            chk.count('repeated_outputs_compared')
+            if scratch:
+                chk.count('repeated_outputs_compared_after_a_failed_call')
+            if info != first:
+                chk.fail('not-repeatable:' + sigop, dict(case, at=i, first=j),
+                         'call %d and call %d of %s() give different infosets%s' % (j, i, base, failed_note(ops, j, i)))
+        else:
+            seen[kind] = (i, info)
+        # --- for the correspondence
+        outs_tok.append(' '.join(real_out_tokens(base, data, coder, picture_files(doc))))
     chk.case((recipe['builder'], tuple(ops)), nontrivial=len(ops) >= 2,
              sample={'builder': recipe['builder'], 'ops': ops} if len(ops) > 3 else None)
     chk.count('seq_len_%d' % len(ops))
     chk.count('doc_%d' % recipe['builder'])
     for op in ops:
         if op != 'touch':
-            chk.count('op_' + op)
+            chk.count('op_' + op.partition('!')[0])
+    if any('!' in o for o in ops):
+        chk.count('histories_with_a_faulty_call')
     if first_dump[0] != 'UNMODELLED-TOPNODE':
-        lines.append('run %s %s %s' % (enc_str(tv), ''.join(LETTER[o] for o in ops if o != 'touch'), ' '.join(first_dump)))
-        pend.append((dict(case, ops=[o for o in ops if o != 'touch'], ops_with_touch=ops), states, outs_tok))
+        lines.append('run %s %s %s' % (enc_str(tv), ''.join(letters), ' '.join(first_dump)))
+        pend.append((dict(case, ops=called, ops_with_touch=ops), states, outs_tok))
     else:
         chk.count('not_sent_to_model')
+
+
+def failed_note(ops, j, i):
+    between = [o for o in ops[j + 1:i] if '!' in o]
+    return ' (faulty calls in between: %s)' % ', '.join(between) if between else ''
 
 
 def live_documents(docs):
@@ -568,36 +677,49 @@ def run_world(chk, recipes, calls, tv):
     case = {'world': {'recipes': recipes, 'calls': [list(c) for c in calls]}}
     prev = [snapshot(d, world=live) for d in live]
     seen = {}
+    scratch = [set() for d in live]
     for step, (i, op) in enumerate(calls):
         i = i % len(live)
-        data = call(live[i], op)
+        base, bang, fault = op.partition('!')
+        failed, sigop = False, op
+        if bang:
+            res = call_faulty(live[i], base, fault)
+            data, failed = res['data'], res['raised'] is not None
+            sigop = base + '!' + fault_kind(fault) if failed else base
+            chk.count('world_faulty_calls_that_raised' if failed else 'world_faulty_calls_that_got_through')
+        else:
+            data = call(live[i], op)
         now = [snapshot(d, world=live) for d in live]
+        if failed:
+            scratch[i].update(set(now[i]['misc'][2]) - set(prev[i]['misc'][2]))
         for j in range(len(live)):
             if now[j] == prev[j]:
                 continue
             if j == i:
-                verdict, why = judge_own(prev[j], now[j], tv)
+                verdict, why = judge_own(hide(prev[j], scratch[j]), hide(now[j], scratch[j]), tv)
                 if verdict == 'changed':
-                    chk.fail('document-changed:' + op, dict(case, at=step),
-                             '%s() on document %d changed it beyond generator normalisation: %s' % (op, i, why))
+                    chk.fail('document-changed:' + sigop, dict(case, at=step),
+                             '%s() on document %d changed it beyond generator normalisation: %s' % (sigop, i, why))
                 elif verdict == 'generator':
-                    chk.fail('generator-not-normalised:' + op, dict(case, at=step), 'after %s() on document %d: %s' % (op, i, why))
+                    chk.fail('generator-not-normalised:' + sigop, dict(case, at=step), 'after %s() on document %d: %s' % (sigop, i, why))
             else:
-                chk.fail('other-document-changed:' + op, dict(case, at=step),
+                chk.fail('other-document-changed:' + sigop, dict(case, at=step),
                          'call %d, %s() on live document %d, changed live document %d: differs in %s'
-                         % (step, op, i, j, snap_diff(prev[j], now[j])))
+                         % (step, sigop, i, j, snap_diff(prev[j], now[j])))
             if now[j]['links']:
-                chk.fail('broken-links:' + op, dict(case, at=step), 'document %d after %s() on %d: %s' % (j, op, i, list(now[j]['links'])[:4]))
+                chk.fail('broken-links:' + sigop, dict(case, at=step), 'document %d after %s() on %d: %s' % (j, sigop, i, list(now[j]['links'])[:4]))
         prev = now
-        info = out_infoset(op, data)
-        if (i, op) in seen:
-            chk.count('world_repeated_outputs_compared')
-            if info != seen[(i, op)][1]:
-                chk.fail('not-repeatable:' + op, dict(case, at=step, first=seen[(i, op)][0]),
-                         'calls %d and %d of %s() on live document %d give different infosets' % (seen[(i, op)][0], step, op, i))
-        else:
-            seen[(i, op)] = (step, info)
         chk.count('world_calls')
+        if failed:
+            continue
+        info = out_infoset(base, data)
+        if (i, base) in seen:
+            chk.count('world_repeated_outputs_compared')
+            if info != seen[(i, base)][1]:
+                chk.fail('not-repeatable:' + sigop, dict(case, at=step, first=seen[(i, base)][0]),
+                         'calls %d and %d of %s() on live document %d give different infosets' % (seen[(i, base)][0], step, base, i))
+        else:
+            seen[(i, base)] = (step, info)
     chk.count('world_histories')
     chk.count('world_of_%d_documents' % len(live))
     chk.case(('world', tuple(r['builder'] for r in recipes), tuple(tuple(c) for c in calls)), nontrivial=len(live) > 1 and len(calls) > 1,
@@ -621,6 +743,42 @@ def world_histories(chk, recipes):
             if chk.rng.random() < 0.5:
                 calls.append((chk.rng.choice([a, b]), chk.rng.choice(OPS)))
             yield rs, calls
+    # sandwiches: a package of b, a package of a, a package of b again - for the ordered pairs (a, b) of live documents:
+    # what one document's rendering leaves behind must not reach another document's output (nor its own next one)
+    flip = 0
+    for w in worlds:
+        rs = [recipes[k] for k in w]
+        nlive = len(w) + 2 * w.count(2)
+        for a in range(nlive):
+            for b in range(nlive):
+                if a == b:
+                    continue
+                pk = PKG if chk.tier == 'thorough' else [PKG[flip % 2]]
+                flip += 1
+                for op in pk:
+                    yield rs, [(b, op), (a, chk.rng.choice(PKG)), (a, chk.rng.choice(OPS)), (b, op)]
+    # faulty calls among several live documents
+    for w in worlds:
+        rs = [recipes[k] for k in w]
+        nlive = len(w) + 2 * w.count(2)
+        for _ in range(12 if chk.tier == 'thorough' else 3):
+            a = chk.rng.randrange(nlive); b = chk.rng.randrange(nlive)
+            op = chk.rng.choice(PKG)
+            yield rs, [(a, op), (b, chk.rng.choice(PKG)), (a, random_fault(chk.rng)), (b, chk.rng.choice(OPS)),
+                       (a, op), (b, random_fault(chk.rng)), (a, op), (b, chk.rng.choice(PKG))]
+
+
+PKG = ['save', 'write']
+
+
+def random_fault(rng):
+    """a save()/write() with an injected fault"""
+    f = rng.choice(['w', 'w', 'w', 'nofile', 'path'])
+    if f == 'w':
+        return rng.choice(PKG) + '!w%d' % rng.choice([rng.randrange(0, 6), rng.randrange(6, 30), rng.randrange(30, 120)])
+    if f == 'nofile':
+        return rng.choice(PKG) + '!nofile%d' % rng.randrange(8)
+    return 'save!path'
 
 
 def compare_model(chk, case, states, outs_tok, answer):
@@ -663,6 +821,27 @@ def sequences(chk, nrecipes):
         # the picture files are rewritten between two packages
         for t in (['save', 'touch', 'save'], ['write', 'save', 'touch', 'write', 'save'], ['save', 'touch', 'xml', 'save', 'save']):
             seqs.append((r, list(t)))
+    # failed calls are calls too: a package, a call that raises part-way, the same package again (twice: what a failed call
+    # leaves behind may show in the next call only, or only from the second on)
+    for r in range(nrecipes):
+        for base in PKG:
+            faults = ['w%d' % chk.rng.randrange(0, 4), 'w%d' % chk.rng.randrange(4, 16), 'w%d' % chk.rng.randrange(16, 70),
+                      'nofile%d' % chk.rng.randrange(8), 'path']
+            for f in faults:
+                fop = ('save' if f == 'path' else chk.rng.choice(PKG)) + '!' + f
+                seqs.append((r, [base, fop, base, chk.rng.choice(OPS), base]))
+                seqs.append((r, [fop, base, base]))
+            if chk.tier == 'thorough':
+                for n in range(0, 90):
+                    seqs.append((r, [base, base + '!w%d' % n, base, base]))
+                for j in range(6):
+                    seqs.append((r, [base, base + '!nofile%d' % j, base, base]))
+    for _ in range(600 if chk.tier == 'thorough' else 60):
+        n = chk.rng.randint(3, 6)
+        ops = [chk.rng.choice(OPS) for _ in range(n)]
+        for _ in range(chk.rng.randint(1, 2)):
+            ops.insert(chk.rng.randint(0, len(ops) - 1), random_fault(chk.rng))
+        seqs.append((chk.rng.randrange(nrecipes), ops))
     nrand = 1500 if chk.tier == 'thorough' else 300
     for _ in range(nrand):
         n = chk.rng.randint(3, 6)
@@ -681,7 +860,10 @@ def run(chk, replay=None):
                 'from a saved package) x all ordered pairs of the 7 output calls + random sequences of length 3..6 '
                 '(thorough: all sequences up to length 4); plus worlds of 2..6 live documents (two or three unrelated documents, '
                 'a parent with its embedded objects) with the calls interleaved over all of them, every live document '
-                'snapshotted after every call; non-trivial = at least two calls')
+                'snapshotted after every call; histories with save()/write() calls that RAISE part-way (the caller\'s stream raises at its '
+                'n-th write, a picture file is missing at that moment, the target directory does not exist) between, before and after '
+                'calls that get through; sandwiches (package of b, package of a, package of b) over the ordered pairs of live documents; '
+                'non-trivial = at least two calls')
     T = translate_styles.tables()
     tv = TOOLSVERSION
     if replay is not None:
@@ -699,7 +881,7 @@ def run(chk, replay=None):
         print('replay: recipe %d, calls %s: %d failures' % (inp['recipe']['builder'], inp['ops'], len(chk.failures)))
         return 1 if len(chk.failures) + len(chk.known_hits) > before else 0
     translate_styles.translate(chk)           # drv_render uses the generated followed-attribute list
-    chk.prove(drivers=['drv_render'])
+    chk.prove(modules=['OdfModel.Props.C12', 'OdfModel.Props.C12Fault'], drivers=['drv_render'])
     drv = chk.driver('drv_render')
     recipes = gen_recipes(chk.rng)
     lines, pend = [], []
